@@ -1,10 +1,18 @@
 #!/usr/bin/env python3
-"""MANIFEST.setup_cmd: build the simulator offline from files on disk."""
+"""MANIFEST.setup_cmd: build the simulator offline from files on disk, in every
+configuration the checks use (main, shuttle for C15, the C19 build matrix), so
+that the checks themselves only pay an incremental rebuild."""
 import os, sys
+from concurrent.futures import ThreadPoolExecutor
 sys.path.insert(0, os.path.dirname(os.path.abspath(__file__)))
-import vbuild
+import vbuild, c19
+
+repo = os.environ.get("VERIF_REPO", "/repo")
 try:
-    print(vbuild.build(os.environ.get("VERIF_REPO", "/repo"), "main"))
+    print(vbuild.build(repo, "main"))
+    print(vbuild.build(repo, "main-sh", shuttle=True))
+    for c, (path, dt) in c19.build_all(repo, "main", c19.CONFIGS_QUICK).items():
+        print(path)
 except RuntimeError as e:
     print("HARNESS-ERROR", e)
     sys.exit(2)
